@@ -8,7 +8,7 @@
    repetition is the `while` loop of sample()/estimate() and the convergence is only
    tested statistically by the harness (labelled as a test). *)
 From Coq Require Import QArith Qminmax NArith List Bool Permutation.
-From PL.C22 Require Import ModelSampler ProofsSampler.
+From PL.C22 Require Import ModelSampler ProofsSampler ProofsWellFormed.
 Import ListNotations.
 Open Scope Q_scope.
 
@@ -72,8 +72,9 @@ Print Assumptions C22_fact_drawn_once.
      forall st' w', In (st', w') (sdist s init 1) -> w' == printed st'.
    PROVED: the same conclusion under the side condition `ok s init`, which states the consequences of
    well-formedness at the states the strategy reaches: 0<=p<=1 for a new fact, 0<=p<=r for a new AD head met
-   with remaining mass r>=1e-8, p=0 below the cut-off.  MISSING: the invariant "remaining mass r of an open
-   group = 1 - sum of its memoised heads", which derives `ok` from the well-formedness of T. *)
+   with remaining mass r>=1e-8, p=0 below the cut-off.  The invariant "remaining mass r of an open
+   group = 1 - sum of its memoised heads", which derives `ok` from the well-formedness of T, is proved in
+   ProofsWellFormed.v: the full statement is C22_printed_probability below (this one is kept). *)
 Theorem C22_printed_probability_partial : forall s st' w',
   ok s init -> In (st', w') (sdist s init 1) -> w' == printed st'.
 Proof. exact printed_weight_init. Qed.
@@ -84,6 +85,83 @@ Example C22_ok_example :
   ok (of_list [mkCall 5 None (Some (1#2)); mkCall 1 (Some 9%N) (Some (1#4)); mkCall 2 (Some 9%N) (Some (3#4));
                mkCall 5 None (Some (1#2))]) init.
 Proof. vm_compute. intuition discriminate. Qed.
+
+(* ---- well-formed input implies the side condition (ProofsWellFormed.v) -----------------------
+   The sampler's input is a table T of add_atom calls.  wf_table T (boolean, computable):
+   every identifier once (=> every atom in at most one group, always the same probability),
+   facts 0<=p<=1, AD heads 0<=p and (p=0 or p>=1e-8: the cut-off guard of C22_ad_categorical),
+   the heads of every group sum to <= 1.  A strategy is admissible when every call it can ever
+   make is a row of T or deterministic (probability None). *)
+Theorem C22_wellformed_ok : forall T s, wf_table T = true -> admissible T s -> ok s init.
+Proof. exact wf_ok. Qed.
+Print Assumptions C22_wellformed_ok.
+
+(* every state reachable from `init` by decide-steps on allowed calls (any strategy, any draws)
+   satisfies the local side condition of every allowed call, and `ok` of every admissible continuation *)
+Theorem C22_reachable_ok : forall T st, wf_table T = true -> reach T st ->
+  (forall c, allowed T c -> call_ok st c) /\ (forall s, admissible T s -> ok s st).
+Proof. exact reach_ok. Qed.
+Print Assumptions C22_reachable_ok.
+
+(* `reach` covers what actually happens: the final state of every scripted run and every leaf of the
+   distribution of an admissible strategy is reachable *)
+Theorem C22_runs_are_reachable : forall T s,
+  admissible T s ->
+  (forall us st' us', srun s init us = Some (st', us') -> reach T st') /\
+  (forall st' w', In (st', w') (sdist s init 1) -> reach T st').
+Proof. exact runs_are_reachable. Qed.
+Print Assumptions C22_runs_are_reachable.
+
+(* the invariant behind it: the remaining mass of an open group is 1 - (memoised heads of the group),
+   and stays within [0,1] *)
+Theorem C22_remaining_mass : forall T st g r, wf_table T = true -> reach T st ->
+  cur_grp g (s_groups st) = GOpen r -> r == 1 - msum T g (s_facts st) /\ 0 <= r <= 1.
+Proof. exact remaining_mass. Qed.
+Print Assumptions C22_remaining_mass.
+
+(* FULL STATEMENT of the printed-probability property, no run-time side condition:
+   for a well-formed table and every adaptive strategy over it, every sample's printed probability
+   is the probability with which the sampler produces it *)
+Theorem C22_printed_probability : forall T s st' w',
+  wf_table T = true -> admissible T s -> In (st', w') (sdist s init 1) -> w' == printed st'.
+Proof. exact printed_probability. Qed.
+Print Assumptions C22_printed_probability.
+
+(* the same for a scripted run (what the harness replays against the real sampler): the volume of the
+   box of scripts that take the same path is the printed probability of the state `srun` ends in *)
+Theorem C22_printed_probability_script : forall T s us st' w' us',
+  wf_table T = true -> admissible T s -> spath s init us 1 = Some (st', w', us') ->
+  srun s init us = Some (st', us') /\ w' == printed st'.
+Proof. exact printed_probability_script. Qed.
+Print Assumptions C22_printed_probability_script.
+
+(* non-vacuity: a well-formed table (one fact, an AD with sum 1, an AD with sum 2/3 and a zero head) and a
+   genuinely adaptive strategy (the order in which heads are met depends on the fact's value; a
+   deterministic atom and a repeated atom are asked too); 15 leaves (8 of positive weight, total 1; the
+   others are the measure-zero sides of draws with threshold 0 or 1), every weight = printed *)
+Definition ex_T : list call :=
+  [mkCall 5 None (Some (1#2));
+   mkCall 1 (Some 9%N) (Some (1#4)); mkCall 2 (Some 9%N) (Some (3#4));
+   mkCall 3 (Some 8%N) (Some (1#3)); mkCall 4 (Some 8%N) (Some (1#3)); mkCall 6 (Some 8%N) (Some 0)].
+Definition ex_s : strat :=
+  Ask (mkCall 5 None (Some (1#2))) (fun b =>
+    if b then of_list [mkCall 1 (Some 9%N) (Some (1#4)); mkCall 7 None None; mkCall 2 (Some 9%N) (Some (3#4))]
+    else of_list [mkCall 2 (Some 9%N) (Some (3#4)); mkCall 3 (Some 8%N) (Some (1#3)); mkCall 5 None (Some (1#2));
+                  mkCall 6 (Some 8%N) (Some 0); mkCall 4 (Some 8%N) (Some (1#3)); mkCall 1 (Some 9%N) (Some (1#4))]).
+
+Example C22_ex_wellformed : wf_table ex_T = true /\ admissible ex_T ex_s.
+Proof.
+  split. vm_compute. reflexivity.
+  intros c A. unfold allowed, ex_T. simpl in A.
+  repeat match goal with H : _ \/ _ |- _ => destruct H | H : False |- _ => destruct H end;
+    subst; simpl; tauto.
+Qed.
+
+Example C22_ex_printed :
+  map (fun l => (Qred (snd l), Qeq_bool (snd l) (printed (fst l)))) (sdist ex_s init 1)
+  = [(1#8, true); (3#8, true); (0, true); (1#8, true); (0, true); (1#8, true); (1#8, true); (1#24, true);
+     (0, true); (0, true); (0, true); (1#24, true); (0, true); (1#24, true); (0, true)].
+Proof. vm_compute. reflexivity. Qed.
 
 (* Rejection: within any number of attempts, the first accepted sample is distributed as the
    sample distribution conditioned on the evidence *)
